@@ -179,6 +179,12 @@ func ruleTLex(p *Program, r *Reporter) {
 			}
 			continue
 		}
+		for _, ev := range o.St.Trace {
+			if ev.Kind == "runtime-panic" && !reported["rp:"+ev.Note] {
+				reported["rp:"+ev.Note] = true
+				r.Bad(ev.Pos, "lexer panic :: "+ev.Note, "a path of the lexer reaches an operation that panics")
+			}
+		}
 		lp := d.describe(o, 0)
 		for _, m := range lp.Missteps {
 			if !reported[m] {
